@@ -12,7 +12,7 @@ variable (cfg : Cfg) (sfh : Bool)
 def Ty.Fam (t : Ty) : Prop :=
   match t with
   | .any | .undef | .dflt | .scalar | .scalarData | .numeric | .data | .richData | .bin | .str => True
-  | .int _ | .float _ _ | .bool _ | .tspan _ | .strVal _ | .regexp _ | .object _ => True
+  | .int _ | .float _ _ | .bool _ | .tspan _ | .tstamp _ | .strVal _ | .regexp _ | .object _ => True
   | .enum _ ci => ci = false
   | .array e r => ((match e with | .unit => True | _ => False) ∧ r.hi ≤ 0) ∨ Ty.Fam e
   | .hash k v r => ((match k with | .unit => True | _ => False) ∧ (match v with | .unit => True | _ => False) ∧ r.hi ≤ 0) ∨
@@ -315,7 +315,7 @@ theorem fam_inferFam : InferFam cfg sfh Ty.Fam (fun _ => False) where
   left := fun a b ha hb => (common_fam cfg sfh _ a b ha hb).2.1
   right := fun a b ha hb => (common_fam cfg sfh _ a b ha hb).2.2
   leaf := by
-    refine ⟨?_, ?_, ?_, ?_, ?_, ?_, ?_, ?_, ?_, ?_⟩ <;> (try intro _) <;> (unfold Ty.Fam; trivial)
+    refine ⟨?_, ?_, ?_, ?_, ?_, ?_, ?_, ?_, ?_, ?_, ?_⟩ <;> (try intro _) <;> (unfold Ty.Fam; trivial)
   typv := fun _ h => absurd h id
   sens := fun t h => by unfold Ty.Fam; exact h
   arr0 := by unfold Ty.Fam; left; exact ⟨trivial, by simp⟩
